@@ -74,7 +74,8 @@ class Ledger:
             if _ty_is_owned_ptr(gen):
                 return (-1, 'ptr::read::<owned pointer>')
         if nm == 'new' and 'HybridProtection' in path and c.get('krate') == 'arc_swap':
-            d = U.def_rvalue(b, t['args'][1])
+            from .protect import new_arg_positions
+            d = U.def_rvalue(b, t['args'][new_arg_positions(t)[1]])
             if d and d[0] == 'rv' and d[3]['k'] == 'aggregate' and d[3].get('adt') == 'core::option::Option':
                 return ((-1, 'protection(ptr, None) takes the count') if d[3]['variant'] == 'None' else (0, 'protection(ptr, Some(debt)) borrows'))
             return (None, 'HybridProtection::new with a debt that is not literally Some/None')
@@ -561,7 +562,10 @@ def _prot_new_shape(fx, col):
     if good:
         di = agg['field_names'].index('debt')
         pi = agg['field_names'].index('ptr')
-        good = b.origins(agg['fields'][di]) == {('arg', 2)} and {o[0] for o in b.origins(agg['fields'][pi])} == {'call'} and b.origins(calls[0][1]['args'][0]) == {('arg', 1)}
+        debt_arg = [i for i in range(1, b.arg_count + 1) if 'Option<' in b.local_ty(i) and 'Debt' in b.local_ty(i)]
+        ptr_arg = [i for i in range(1, b.arg_count + 1) if b.local_ty(i).strip().startswith('*')]
+        good = len(debt_arg) == 1 and len(ptr_arg) == 1 and b.origins(agg['fields'][di]) == {('arg', debt_arg[0])} and \
+            {o[0] for o in b.origins(agg['fields'][pi])} == {'call'} and b.origins(calls[0][1]['args'][0]) == {('arg', ptr_arg[0])}
     col.add('LEDGER', 'HybridProtection::new|shape', good, 'new(ptr, debt) = Self { debt, ptr: ManuallyDrop::new(T::from_ptr(ptr)) } (calls: %s)' % names)
 
 
